@@ -16,6 +16,7 @@ TECHNIQUE = ("Hypothesis PBT, differential (linear kernel vs sample-space PCovR,
              "KernelNormalizer, KernelPCA limit) plus an independent re-computation of the documented score formula; gap-aware")
 LEVEL = ("Generated-input exploration over kernels, kernel parameters, centring, regressor variants and held-out sets of every size "
          "(1, <n, =n, >n, the training set itself): projections and predictions of the equivalent routes are compared (sign/gap aware) "
+         "including the precomputed-kernel route with center=True and repeated calls on one kernel array, "
          "and score is recomputed from the docstring formula with kernels built by explicit formulas and feature-space centring. "
          "No absence claim: strength = the counted distinct non-trivial cases in the evidence.")
 BUDGET = {"quick": 700, "thorough": 6000}
